@@ -315,9 +315,9 @@ def traffic_strategy():
 
     @st.composite
     def msg(draw):
-        n = draw(st.one_of(st.integers(0, 300), st.sampled_from([0, 1, 125, 126, 65536, 131072, 200000])))
+        n = draw(st.one_of(st.integers(0, 300), st.sampled_from([0, 1, 125, 126, 65536, 131072, 200000]), st.sampled_from([600, 1100, 2500, 5000, 20000])))
         api = draw(st.sampled_from(["msg", "msg", "msg", "frames", "prepared"]))
-        m = {"len": n, "bin": draw(st.booleans()), "salt": draw(st.integers(0, 3)), "api": api, "kind": draw(st.sampled_from(["comp", "comp", "rand"])),
+        m = {"len": n, "bin": draw(st.booleans()), "salt": draw(st.integers(0, 3)), "api": api, "kind": draw(st.sampled_from(["comp", "comp", "rand", "dup"])),
              "dnc": draw(st.integers(0, 3)) == 0}
         if api == "msg":
             m["frag"] = draw(st.sampled_from([0, 0, 7, 1000]))
@@ -394,8 +394,22 @@ def check_traffic(case):
                             f.payload = ref6455.xor_mask(f.payload, f.mask)   # payload travelled un-XORed
                 inflater = None
                 if case["pmce"]["ext"] == "deflate":
-                    inflater = ref6455.RawInflater(15, False)
-                events = [e for e in ref6455.reassemble(frames, inflater) if e[0] == "msg"]
+                    # RFC 7692 7.1.2: a sender must not use a larger LZ77 window than the one agreed for its direction; the agreed parameters
+                    # are read from the server's handshake response as written on the wire
+                    sraw = bytes(r.pipe.delivered[1])
+                    hdr = sraw[:sraw.find(b"\r\n\r\n")].decode("latin-1").lower()
+                    ext_line = next((ln.split(":", 1)[1] for ln in hdr.split("\r\n") if ln.startswith("sec-websocket-extensions:")), "")
+                    name = "client_max_window_bits" if idx == 0 else "server_max_window_bits"
+                    import re as _re
+                    mm = _re.search(name + r"\s*=\s*\"?(\d+)", ext_line)
+                    wb = int(mm.group(1)) if mm else 15
+                    inflater = ref6455.RawInflater(wb, False)
+                try:
+                    events = [e for e in ref6455.reassemble(frames, inflater) if e[0] == "msg"]
+                except Exception as e:
+                    if "zlib" in repr(type(e)) or "zlib" in type(e).__module__:
+                        raise Violation(key + "|wire-not-inflatable-with-agreed-window", "direction %d: an independent inflater with the agreed window of %d bits fails: %r" % (idx, wb, e), case)
+                    raise
                 sent = r.sent[idx]
                 specs = [m for m in case["msgs"][idx] if m.get("in_onopen")] + [m for m in case["msgs"][idx] if not m.get("in_onopen")]
                 if len(events) != len(sent):
